@@ -27,6 +27,8 @@ func TestC12AfterRefusal(t *testing.T) {
 		// returnOnce: the valid instruction is a Return, which would extend a live stub's sequence: issued once, on a
 		// target nothing was mocked on before
 		returnOnce bool
+		// stub: another way to mock the target before the refusal, through Return(11) instead of the valid Apply
+		stub func(b *mocker.Builder)
 	}
 	cases := []tcase{
 		{name: "Func(F)", orig: -1, call: func() int { return F(1) },
@@ -36,6 +38,7 @@ func TestC12AfterRefusal(t *testing.T) {
 				func(b *mocker.Builder) { b.Func(F).Apply(func(a, c int) int { return 0 }) },
 				func(b *mocker.Builder) { b.Func(F).When().Return(1) },
 			},
+			stub:  func(b *mocker.Builder) { b.Func(F).Return(11) },
 			valid: func(b *mocker.Builder, v int) { b.Func(F).Apply(func(a int) int { return v }) }},
 		{name: "Struct(&T{}).Method(M)", orig: -3, call: func() int { return (&T{}).M(1) },
 			refused: []func(b *mocker.Builder){
@@ -43,12 +46,14 @@ func TestC12AfterRefusal(t *testing.T) {
 				func(b *mocker.Builder) { b.Struct(&T{}).Method("M").Apply(func(a int) int { return 0 }) },
 				func(b *mocker.Builder) { b.Struct(&T{}).Method("Nope").Return(1) },
 			},
+			stub:  func(b *mocker.Builder) { b.Struct(&T{}).Method("M").Return(11) },
 			valid: func(b *mocker.Builder, v int) { b.Struct(&T{}).Method("M").Apply(func(t *T, a int) int { return v }) }},
 		{name: "ExportFunc(foo)", orig: -4, call: func() int { return foo(1) },
 			refused: []func(b *mocker.Builder){
 				func(b *mocker.Builder) { b.ExportFunc("foo").As(func(a int) int { return 0 }).Return() },
 				func(b *mocker.Builder) { b.ExportFunc("foo").Apply(func(a, c int) int { return 0 }) },
 			},
+			stub:  func(b *mocker.Builder) { b.ExportFunc("foo").As(func(a int) int { return 0 }).Return(11) },
 			valid: func(b *mocker.Builder, v int) { b.ExportFunc("foo").Apply(func(a int) int { return v }) }},
 		{name: "Interface(&iv).Method(Get)", orig: -99, setup: func() { iv = nil },
 			call: func() int {
@@ -70,6 +75,7 @@ func TestC12AfterRefusal(t *testing.T) {
 				},
 				func(b *mocker.Builder) { b.Interface(&iv).Method("Get").Apply(func(a int) int { return 0 }) },
 			},
+			stub: func(b *mocker.Builder) { b.Interface(&iv).Method("Get").As(okGet).Return(11) },
 			valid: func(b *mocker.Builder, v int) {
 				// (a second Return on a live stub would extend its sequence; Apply replaces)
 				b.Interface(&iv).Method("Get").Apply(func(ctx *mocker.IContext, a int) int { return v })
@@ -97,18 +103,21 @@ func TestC12AfterRefusal(t *testing.T) {
 	}
 	for _, tc := range cases {
 		for ri, ref := range tc.refused {
-			for _, premocked := range []bool{false, true} {
-				if tc.returnOnce && premocked {
+			for _, pm := range []string{"", "apply", "stub"} {
+				premocked := pm != ""
+				if (tc.returnOnce && premocked) || (pm == "stub" && tc.stub == nil) {
 					continue
 				}
 				if tc.setup != nil {
 					tc.setup()
 				}
 				b := mocker.Create()
-				c := map[string]interface{}{"target": tc.name, "refused_instruction": ri, "mocked_before": premocked}
+				c := map[string]interface{}{"target": tc.name, "refused_instruction": ri, "mocked_before": pm}
 				rep.Journal(map[string]interface{}{"part": "after-refusal", "target": tc.name, "refused": ri, "premocked": premocked})
-				if premocked {
+				if pm == "apply" {
 					tc.valid(b, 11)
+				} else if pm == "stub" {
+					tc.stub(b)
 				}
 				var perr interface{}
 				func() {
@@ -121,6 +130,22 @@ func TestC12AfterRefusal(t *testing.T) {
 					rep.Stat("refusals_that_were_accepted", 1)
 					b.Reset()
 					continue
+				}
+				if premocked {
+					// the refused instruction changed nothing: the target still follows the instruction accepted before it
+					for k := 0; k < 2; k++ {
+						got := -777
+						var cerr interface{}
+						func() {
+							defer func() { cerr = recover() }()
+							got = tc.call()
+						}()
+						rep.Eval(1)
+						if cerr != nil || got != 11 {
+							rep.Violate("C12/refused-instruction-disturbed-the-previous-one", fmt.Sprintf("%s: mocked to give 11, then refused instruction #%d (%v): call %d gives %d (panic: %v)", tc.name, ri, firstLine12(perr), k+1, got, cerr), c)
+							break
+						}
+					}
 				}
 				for step, v := range []int{42, 43} {
 					if tc.returnOnce && step > 0 {
@@ -153,7 +178,7 @@ func TestC12AfterRefusal(t *testing.T) {
 				if got := tc.call(); got != tc.orig {
 					rep.Violate("C12/reset-incomplete", fmt.Sprintf("%s: after Reset the call gives %d, want the original %d", tc.name, got, tc.orig), c)
 				}
-				rep.Class(fmt.Sprintf("after-refusal/%s/%d/premocked=%v", tc.name, ri, premocked))
+				rep.Class(fmt.Sprintf("after-refusal/%s/%d/premocked=%s", tc.name, ri, pm))
 			}
 		}
 	}
